@@ -101,6 +101,18 @@ TrRangeAct ==
     /\ Ev.n = Cardinality({k \in 1..K : bufs[Ev.b][k].op # "none" /\ Ev.org <= k /\ k < Ev.end})
     /\ UNCHANGED <<K, emptyKey, PG, SF, bufs, its>>
 
+\* RangeApproxDelta(org, end): adds minus deletes among the entries with org <= key < end
+\* (abs, neg = magnitude and sign)
+TrRangeDelta ==
+    /\ IsEvent("RangeDelta")
+    /\ Ev.ok = 1
+    /\ IsBuf(Ev.b)
+    /\ LET InR(k) == Ev.org <= k /\ k < Ev.end
+           adds == Cardinality({k \in 1..K : bufs[Ev.b][k].op = "add" /\ InR(k)})
+           dels == Cardinality({k \in 1..K : bufs[Ev.b][k].op = "del" /\ InR(k)}) IN
+        Holds(IF Ev.neg = 1 THEN dels = adds + Ev.abs ELSE adds = dels + Ev.abs)
+    /\ UNCHANGED <<K, emptyKey, PG, SF, bufs, its>>
+
 TrItNew ==
     /\ IsEvent("ItNew")
     /\ IsBuf(Ev.b) /\ Ev.it >= 1
@@ -139,7 +151,7 @@ TrItOp ==
 
 TrNote == /\ IsEvent("Note") /\ UNCHANGED <<K, emptyKey, PG, SF, bufs, its>>
 
-TraceNext == TrReset \/ TrScn \/ TrNew \/ TrFill \/ TrMerge \/ TrContent \/ TrLookup \/ TrRangeAct
+TraceNext == TrReset \/ TrScn \/ TrNew \/ TrFill \/ TrMerge \/ TrContent \/ TrLookup \/ TrRangeAct \/ TrRangeDelta
              \/ TrItNew \/ TrItOp \/ TrNote
 
 TraceSpec == TraceInit /\ [][TraceNext]_tvars
